@@ -58,7 +58,9 @@ const uint64_t QS[4] = {Q1, Q2, Q3, Q4};
 typedef unsigned __int128 u128;
 
 void prod_case(Out& out, Rng& rng, int kind, uint64_t ell, int cls) {
-  // kind 0 baa, 1 bbb, 2 bbc, 3 x2 1col, 4 x2 2cols
+  // kind 0 baa, 1 bbb, 2 bbc, 3 x2 1col, 4 x2 2cols;  5, 6, 7: the AVX2 kernels baa, bbb, bbc
+  const int avx = kind >= 5;
+  if (avx) kind -= 5;
   static q120_mat1col_product_baa_precomp* pa = q120_new_vec_mat1col_product_baa_precomp();
   static q120_mat1col_product_bbb_precomp* pb = q120_new_vec_mat1col_product_bbb_precomp();
   static q120_mat1col_product_bbc_precomp* pc = q120_new_vec_mat1col_product_bbc_precomp();
@@ -70,10 +72,16 @@ void prod_case(Out& out, Rng& rng, int kind, uint64_t ell, int cls) {
     for (auto a : f) for (int k = 0; k < 4; k++) P.push_back(a[k]);
   } else { P.push_back(pc->h); for (int k = 0; k < 4; k++) P.push_back(pc->s2l_pow_red[k]); for (int k = 0; k < 4; k++) P.push_back(pc->s2h_pow_red[k]); }
   size_t xrow = kind >= 3 ? 8 : 4, yrow = kind == 4 ? 16 : (kind == 3 ? 8 : 4), rsz = kind == 4 ? 16 : (kind == 3 ? 8 : 4);
-  U x = vec(rng, xrow * ell, kind == 0 ? 2 : cls), y = vec(rng, yrow * ell, kind == 0 ? 2 : cls), r = vec(rng, rsz, 0);
+  const int c0 = (kind == 0 && !avx) ? 2 : cls;   // layout a = 32-bit values; the AVX2 a*a kernel is also run on raw 64-bit lanes (it uses their low halves)
+  U x = vec(rng, xrow * ell, c0), y = vec(rng, yrow * ell, c0), r = vec(rng, rsz, 0);
   std::vector<U> before = {P, r, x, y};
   U res(rsz);
-  switch (kind) {
+  if (avx) switch (kind) {
+    case 0: q120_vec_mat1col_product_baa_avx2(pa, ell, (q120b*)res.data(), (q120a*)x.data(), (q120a*)y.data()); break;
+    case 1: q120_vec_mat1col_product_bbb_avx2(pb, ell, (q120b*)res.data(), (q120b*)x.data(), (q120b*)y.data()); break;
+    case 2: q120_vec_mat1col_product_bbc_avx2(pc, ell, (q120b*)res.data(), (q120b*)x.data(), (q120c*)y.data()); break;
+  }
+  else switch (kind) {
     case 0: q120_vec_mat1col_product_baa_ref(pa, ell, (q120b*)res.data(), (q120a*)x.data(), (q120a*)y.data()); break;
     case 1: q120_vec_mat1col_product_bbb_ref(pb, ell, (q120b*)res.data(), (q120b*)x.data(), (q120b*)y.data()); break;
     case 2: q120_vec_mat1col_product_bbc_ref(pc, ell, (q120b*)res.data(), (q120b*)x.data(), (q120c*)y.data()); break;
@@ -82,7 +90,7 @@ void prod_case(Out& out, Rng& rng, int kind, uint64_t ell, int cls) {
   }
   std::vector<U> after = {P, res, x, y};
   std::string verdict = "ok";
-  if (kind <= 1 && ell <= 10000) {   // oracle: lane j = sum x*y mod q_j
+  if (kind <= 1 && ell <= 10000 && !(avx && kind == 0 && cls != 2)) {   // oracle: lane j = sum x*y mod q_j
     for (int j = 0; j < 4; j++) {
       u128 acc = 0;
       for (uint64_t i = 0; i < ell; i++) acc = (acc + (u128)(x[4 * i + j] % QS[j]) * (y[4 * i + j] % QS[j])) % QS[j];
@@ -91,7 +99,8 @@ void prod_case(Out& out, Rng& rng, int kind, uint64_t ell, int cls) {
   }
   static const char* N[5] = {"q120_vec_mat1col_product_baa_ref", "q120_vec_mat1col_product_bbb_ref", "q120_vec_mat1col_product_bbc_ref",
                              "q120x2_vec_mat1col_product_bbc_ref", "q120x2_vec_mat2cols_product_bbc_ref"};
-  emit(out, N[kind], {ell}, {0, 1, 2, 3}, before, after, verdict);
+  static const char* NA[3] = {"q120_vec_mat1col_product_baa_avx2", "q120_vec_mat1col_product_bbb_avx2", "q120_vec_mat1col_product_bbc_avx2"};
+  emit(out, avx ? NA[kind] : N[kind], {ell}, {0, 1, 2, 3}, before, after, verdict);
 }
 
 void block_case(Out& out, Rng& rng, int kind, uint64_t nn, uint64_t nrows, uint64_t blk) {
@@ -155,7 +164,7 @@ STREAM(cs_q120) {
   std::vector<uint64_t> ells = {0, 1, 2, 3, 5, 8};
   if (thorough) { ells.push_back(17); ells.push_back(64); ells.push_back(1000); ells.push_back(10000); }
   else ells.push_back(100);
-  for (int kind = 0; kind < 5; kind++)
+  for (int kind = 0; kind < 8; kind++)
     for (uint64_t ell : ells)
       for (int cls = 0; cls < 6; cls++) {
         int reps = ell <= 8 ? 2 : 1;
